@@ -1,0 +1,123 @@
+//go:build verif
+
+package dragonboat
+
+import (
+	"sync/atomic"
+
+	"github.com/lni/dragonboat/v4/config"
+	"github.com/lni/dragonboat/v4/internal/logdb"
+	"github.com/lni/dragonboat/v4/internal/rsm"
+	"github.com/lni/dragonboat/v4/internal/server"
+	"github.com/lni/dragonboat/v4/internal/vfs"
+	"github.com/lni/dragonboat/v4/raftio"
+	pb "github.com/lni/dragonboat/v4/raftpb"
+)
+
+// White-box access for the C08 verification harness (snapshot + log suffix =
+// full log; compaction below a recorded snapshot). Compiled only with -tags
+// verif. VerifC08Node holds a real *node with exactly the fields that
+// node.doSave, node.recover, node.removeLog, node.replayLog,
+// node.processSnapshot and node.getCompactionIndex read: the real snapshotter
+// and LogReader over a harness supplied ILogDB and file system, and the
+// rsm.StateMachine the harness built around that snapshotter. Every method
+// below calls the unexported method of the same name; nothing is re-implemented.
+
+type verifC08Pipeline struct{}
+
+func (verifC08Pipeline) setCloseReady(*node)    {}
+func (verifC08Pipeline) setStepReady(uint64)    {}
+func (verifC08Pipeline) setCommitReady(uint64)  {}
+func (verifC08Pipeline) setApplyReady(uint64)   {}
+func (verifC08Pipeline) setStreamReady(uint64)  {}
+func (verifC08Pipeline) setSaveReady(uint64)    {}
+func (verifC08Pipeline) setRecoverReady(uint64) {}
+
+// VerifC08Node is one replica's node as far as snapshots and log compaction go.
+type VerifC08Node struct {
+	n *node
+}
+
+// NewVerifC08Node builds the snapshotter and LogReader the way
+// NodeHost.startShard does and lets mk create the state machine over them.
+func NewVerifC08Node(cfg config.Config, root func(uint64, uint64) string,
+	ldb raftio.ILogDB, fs vfs.IFS,
+	mk func(rsm.ISnapshotter) *rsm.StateMachine) *VerifC08Node {
+	lr := logdb.NewLogReader(cfg.ShardID, cfg.ReplicaID, ldb)
+	s := newSnapshotter(cfg.ShardID, cfg.ReplicaID,
+		server.SnapshotDirFunc(root), ldb, lr, fs)
+	lr.SetCompactor(s)
+	n := &node{
+		shardID:      cfg.ShardID,
+		replicaID:    cfg.ReplicaID,
+		config:       cfg,
+		logdb:        ldb,
+		logReader:    lr,
+		snapshotter:  s,
+		sysEvents:    &sysEventListener{},
+		pipeline:     verifC08Pipeline{},
+		toApplyQ:     rsm.NewTaskQueue(),
+		toCommitQ:    rsm.NewTaskQueue(),
+		initializedC: make(chan struct{}),
+	}
+	n.sm = mk(s)
+	return &VerifC08Node{n: n}
+}
+
+// SM returns the replica's state machine.
+func (v *VerifC08Node) SM() *rsm.StateMachine { return v.n.sm }
+
+// DoSave is node.doSave.
+func (v *VerifC08Node) DoSave(req rsm.SSRequest) (uint64, error) { return v.n.doSave(req) }
+
+// Recover is node.recover.
+func (v *VerifC08Node) Recover(t rsm.Task) (uint64, error) { return v.n.recover(t) }
+
+// RemoveLog is node.removeLog.
+func (v *VerifC08Node) RemoveLog() error { return v.n.removeLog() }
+
+// ReplayLog is node.replayLog.
+func (v *VerifC08Node) ReplayLog() (bool, error) {
+	return v.n.replayLog(v.n.shardID, v.n.replicaID)
+}
+
+// InitialRecoverDone is node.setInitialStatus, what processRecoverStatus does
+// with the index returned by the initial node.recover.
+func (v *VerifC08Node) InitialRecoverDone(index uint64) { v.n.setInitialStatus(index) }
+
+// ProcessSnapshot is node.processSnapshot for an update that carries ss; it
+// returns the Recover task that pushSnapshot queued for the apply worker.
+func (v *VerifC08Node) ProcessSnapshot(ss pb.Snapshot, lastApplied uint64) (rsm.Task, bool, error) {
+	if err := v.n.processSnapshot(pb.Update{Snapshot: ss, LastApplied: lastApplied}); err != nil {
+		return rsm.Task{}, false, err
+	}
+	t, ok := v.n.toApplyQ.Get()
+	return t, ok, nil
+}
+
+// AppendLog is LogReader.Append as called by node.processRaftUpdate for the
+// entries raft has made durable.
+func (v *VerifC08Node) AppendLog(ents []pb.Entry) error { return v.n.logReader.Append(ents) }
+
+// CompactionIndex is node.getCompactionIndex.
+func (v *VerifC08Node) CompactionIndex(req rsm.SSRequest, index uint64) (uint64, bool) {
+	return v.n.getCompactionIndex(req, index)
+}
+
+// PendingCompactLogTo reads snapshotState.compactLogTo without consuming it.
+func (v *VerifC08Node) PendingCompactLogTo() uint64 {
+	return atomic.LoadUint64(&v.n.ss.compactLogTo)
+}
+
+// SnapshotFilePath is snapshotter.getFilePath.
+func (v *VerifC08Node) SnapshotFilePath(index uint64) string {
+	return v.n.snapshotter.getFilePath(index)
+}
+
+// SnapshotEnv is snapshotter.getEnv.
+func (v *VerifC08Node) SnapshotEnv(index uint64) server.SSEnv {
+	return v.n.snapshotter.getEnv(index)
+}
+
+// LogReaderSnapshot is LogReader.Snapshot.
+func (v *VerifC08Node) LogReaderSnapshot() pb.Snapshot { return v.n.logReader.Snapshot() }
